@@ -10,6 +10,7 @@ import (
 
 	"verifharness/common"
 	_ "verifharness/engines/beaconstore"
+	_ "verifharness/engines/intake"
 	_ "verifharness/engines/headerproof"
 	_ "verifharness/engines/history"
 	_ "verifharness/engines/lightclient"
